@@ -371,7 +371,7 @@ pub fn exec_op(st: &mut Store, dir: &str, t: &[&str]) -> (String, bool) {
         let res: String = match t[0] {
             "V" | "A" | "T" | "P" | "C" | "U" | "S" => {
                 let r = catch_unwind(AssertUnwindSafe(|| match t[0] {
-                    "V" => st.rl.save_vote((pu(t[1]), pu(t[2]))),
+                    "V" => st.rl.save_vote(PVote(pu(t[1]), pu(t[2]))),
                     "A" => st.rl.append(parse_entries(&t[1..])),
                     "T" => st.rl.truncate(pu(t[1])),
                     "P" => st.rl.purge((pu(t[1]), pu(t[2]))),
